@@ -18,12 +18,12 @@ vars == <<l, failed>>
 
 Scen(e) == [mode |-> e.sc.mode, out |-> e.sc.out, quit |-> e.sc.quit, status |-> e.sc.status,
             src |-> {x \in {"config", "delta", "bat", "pager"} : e.sc.src[x]}, pagerval |-> e.sc.pagerval,
-            stay |-> e.sc.stay, big |-> e.sc.big, how |-> e.sc.how, bare |-> e.sc.bare]
+            stay |-> e.sc.stay, big |-> e.sc.big, how |-> e.sc.how, bare |-> e.sc.bare, wf |-> e.sc.wf, wat |-> e.sc.wat]
 
 Why(e) ==
   LET sc == Scen(e) IN
   IF ~ExitOK(sc, e.code, e.hit) THEN "exit-status"
-  ELSE IF WantQuiet(sc) /\ e.code = 0 /\ e.stderr # 0 /\ NormalExit(sc) = 0 THEN "noise-on-quit"
+  ELSE IF WantQuiet(sc) /\ e.code = 0 /\ e.stderr # 0 /\ NormalExit(sc) = 0 THEN (IF sc.quit > 0 THEN "noise-on-quit" ELSE "noise-on-retried-write")
   ELSE IF sc.out = "pager" /\ e.pager # Chosen(sc) THEN "pager-choice"
   ELSE IF sc.out = "pager" /\ LessArgsAreDeltas(sc) /\ ~e.rflag THEN "less-without-R"
   ELSE IF ~DeliveredOK(sc, e.got, e.sent, e.gotHash, e.sentHash) THEN "not-delivered"
